@@ -64,6 +64,12 @@ add("C06", "exploration",
     "Trusted: REF-ASM's layout classification used to key findings (backward .ORG / image > 255 / image 241-255 bytes).",
     "DESIGN.md 3/C06")
 
+add("C16", "exploration",
+    "bounded exhaustive enumeration of accepted programs (C03 families + all 256 byte values in 5 spellings, word boundaries, comment and label families, multi-line combinations); each is rendered with Display and re-parsed by the real parser, whole-AST equality",
+    "For every accepted text: parse(format(asm)) == asm, and every line rendered on its own (the form of the program pane / byte-code listing) re-parses to exactly that line.",
+    "Only parser-built ASTs are judged; equality is the derived PartialEq on Asm/Line.",
+    "DESIGN.md 3/C16")
+
 NOT_YET = {}
 
 def main():
